@@ -12,13 +12,13 @@ import RModel.Gen.SerdeVerdict
 
   Full statement (`C17_full`): every well-typed plan value `v` satisfies `de planTy (ser planTy v) = ok v`.
   It is equivalent to `SchemaOk Gen.planTy` (`C17_full_iff`), a closed decidable fact about the generated
-  schema that the translator records in `Gen/SerdeVerdict.lean` (`Gen.planVerdict`), re-checked by `decide`.
-  On the unchanged tree the verdict is `false`: `MatchHunk.replace` and `Rename.new_path` are dropped when
-  empty (`skip_serializing_if`) but required on reading (no `default`).  Proved in every case:
+  schema that the translator records in `Gen/SerdeVerdict.lean` (`Gen.planVerdict`, `Gen.planVerdict_is_true`),
+  re-checked by `decide`.  Since repo commit 7e5290d (`#[serde(default)]` on `MatchHunk.replace` and
+  `Rename.new_path`) the verdict is `true` and the property is proved unguarded:
    * `roundtrip_iff`           exact characterisation for every schema and value (nested structs, Option, Vec, …)
-   * `plan_roundtrip_partial`  round-trip for every plan in which none of the listed fields is empty
-   * `C17_witness_*`           the concrete plans on which loading fails, if the field is (still) offending
-   * `plan_roundtrip`          the full theorem, under the hypothesis `Gen.planVerdict = true`
+   * `plan_roundtrip_all`      C17_full for the regenerated schema (breaks as soon as the schema regresses)
+   * `history_roundtrip`       the history file
+   * `Old.*`, `C17_witness_*`  the schema before the repair, its guarded theorem and the two kernel-evaluated witnesses
 -/
 namespace C17
 open Serde
@@ -86,30 +86,30 @@ theorem roundtrip_of_schemaOkExcept (bad : List (Bytes × Bytes)) (t : Ty) (v : 
 /-- the property at full strength -/
 def C17_full : Prop := ∀ v, wellTyped Gen.planTy v = true → de Gen.planTy (ser Gen.planTy v) = .ok v
 
-/-- Apart from the fields listed in KNOWN_FINDINGS (`Gen.knownBad` = `MatchHunk.replace`, `Rename.new_path`)
-    every skippable field of `Plan` is restored on reading.  Fails to compile as soon as another field is
-    dropped-but-required (a removed `default` on a non-`Option` field, a new `skip_serializing_if`). -/
-theorem schemaOkExcept_plan : SchemaOkExcept Gen.knownBad Gen.planTy = true := by decide
-
-/-- C17 for every plan in which no hunk has an empty `replace` and no rename an empty `new_path`
-    (`guardOn Gen.knownBad`): the saved plan loads and equals the plan. -/
-theorem plan_roundtrip_partial (v : RVal) (hw : wellTyped Gen.planTy v = true)
-    (hg : guardOn Gen.knownBad Gen.planTy v = true) : de Gen.planTy (ser Gen.planTy v) = .ok v :=
-  Serde.roundtrip_of_schemaOkExcept Gen.knownBad Gen.planTy v schemaOkExcept_plan hw hg
-
-/-- Non-vacuity: the fully populated plan (one hunk, one rename, every optional field `Some`, one created
-    directory, one `matches_by_variant` entry) is well-typed and satisfies the guard … -/
-example : wellTyped Gen.planTy (sample Gen.planTy) = true ∧ guardOn Gen.knownBad Gen.planTy (sample Gen.planTy) = true := by
-  decide
-
-/-- … and the guard is exactly about empty strings in the two listed fields: a hunk `{replace: ""}` violates it. -/
-example : guardOn [(b!"H", b!"replace")] (.vec (.struct b!"H" false [.mk b!"replace" .str .strEmpty .required]))
-            (.list [.record [.str b!"x"], .record [.str b!""]]) = false := by decide
-
-/-- The full theorem, available as soon as the regenerated schema passes the check (`#[serde(default)]` on
-    the two fields): every plan from every entry point survives `save; load`. -/
+/-- The full theorem in terms of the verdict the translator records for the schema it extracted. -/
 theorem plan_roundtrip (h : Gen.planVerdict = true) : C17_full :=
   fun v hw => Serde.roundtrip_of_schemaOk Gen.planTy (Gen.planVerdict_eq.trans h) v hw
+
+/-- Every skippable field of `Plan`, `MatchHunk`, `Rename` (as regenerated from the source on this run) is
+    restored on reading.  `Gen.planVerdict_is_true` exists only if the translator found the schema fine and is
+    re-checked by `decide`; this line fails to compile as soon as a field is dropped-but-required again
+    (a removed `default` on a non-`Option` field, a new `skip_serializing_if` without `default`). -/
+theorem schemaOk_plan : SchemaOk Gen.planTy = true := Gen.planVerdict_eq.trans Gen.planVerdict_is_true
+
+/-- **C17 (serialisation half), unguarded**: every well-typed plan value — from any planner entry point, with
+    empty replacement strings, any text, absolute or relative paths, every optional field present or absent —
+    written with the derive rules and read back is the same plan. -/
+theorem plan_roundtrip_all : C17_full := plan_roundtrip Gen.planVerdict_is_true
+
+/-- Non-vacuity: the fully populated plan is well-typed, and so is the plan of a deletion (the value in which
+    a hunk's `replace` is the empty string), which round-trips now. -/
+example : wellTyped Gen.planTy (sample Gen.planTy) = true := by decide
+example : (witnessFor b!"MatchHunk" b!"replace" Gen.planTy).map
+            (fun w => (wellTyped Gen.planTy w, decide (de Gen.planTy (ser Gen.planTy w) = .ok w))) = some (true, true) := by
+  decide
+example : (witnessFor b!"Rename" b!"new_path" Gen.planTy).map
+            (fun w => (wellTyped Gen.planTy w, decide (de Gen.planTy (ser Gen.planTy w) = .ok w))) = some (true, true) := by
+  decide
 
 /-- Every field the schema check reports is a genuine counterexample: the value built from it
     (`witnessFor`: that field skipped, everything else populated) is a well-typed plan that does not survive. -/
@@ -140,22 +140,88 @@ theorem C17_full_iff : C17_full ↔ Gen.planVerdict = true := by
         exact absurd (hfull w hall.1.1) hall.1.2
   · exact plan_roundtrip
 
-/-- Known defect 1 (conditional on the field still being offending, so that this file compiles before and
-    after the repair; `Gen.planOffending_eq` states which case holds): the plan of a deletion — a hunk whose
-    `replace` is empty — is written without the key and cannot be loaded: "missing field `replace`". -/
+-- the schema before repo commit 7e5290d (kept as a constant: the defect that was found and repaired) -----
+
+namespace Old
+
+/-- `MatchHunk` as it was: `replace` dropped when empty, no `default` -/
+def matchHunkTy : Ty := .struct b!"MatchHunk" false [
+  .mk b!"file" .path .never .required,
+  .mk b!"line" .num .never .required,
+  .mk b!"byte_offset" .num .never .required,
+  .mk b!"char_offset" .num .never .required,
+  .mk b!"variant" .str .never .required,
+  .mk b!"content" .str .never .required,
+  .mk b!"replace" .str .strEmpty .required,
+  .mk b!"start" .num .never .required,
+  .mk b!"end" .num .never .required,
+  .mk b!"line_before" (.opt .str) .optNone .implicitNone,
+  .mk b!"line_after" (.opt .str) .optNone .implicitNone,
+  .mk b!"coercion_applied" (.opt .str) .optNone .implicitNone,
+  .mk b!"original_file" (.opt .path) .optNone .default,
+  .mk b!"renamed_file" (.opt .path) .optNone .default,
+  .mk b!"patch_hash" (.opt .str) .optNone .default]
+
+/-- `Rename` as it was: `new_path` dropped when empty, no `default` -/
+def renameTy : Ty := .struct b!"Rename" false [
+  .mk b!"path" .path .never .required,
+  .mk b!"new_path" .path .pathEmpty .required,
+  .mk b!"kind" (.enum b!"RenameKind" [b!"file", b!"dir"]) .never .required,
+  .mk b!"coercion_applied" (.opt .str) .optNone .implicitNone]
+
+def planTy : Ty := .struct b!"Plan" false [
+  .mk b!"id" .str .never .required,
+  .mk b!"created_at" .str .never .required,
+  .mk b!"search" .str .never .required,
+  .mk b!"replace" .str .never .required,
+  .mk b!"styles" (.vec (.enum b!"Style" [b!"Snake", b!"Kebab", b!"Camel", b!"Pascal"])) .never .required,
+  .mk b!"includes" (.vec .str) .never .required,
+  .mk b!"excludes" (.vec .str) .never .required,
+  .mk b!"matches" (.vec matchHunkTy) .never .required,
+  .mk b!"paths" (.vec renameTy) .never .required,
+  .mk b!"stats" (.struct b!"Stats" false [
+      .mk b!"files_scanned" .num .never .required,
+      .mk b!"total_matches" .num .never .required,
+      .mk b!"matches_by_variant" (.map .num) .never .required,
+      .mk b!"files_with_matches" .num .never .required]) .never .required,
+  .mk b!"version" .str .never .required,
+  .mk b!"created_directories" (.opt (.vec .path)) .optNone .default]
+
+def knownBad : List (Bytes × Bytes) := [(b!"MatchHunk", b!"replace"), (b!"Rename", b!"new_path")]
+
+end Old
+
+/-- the old schema failed the check, through exactly the two fields -/
+theorem old_schema_offending : offending Old.planTy = Old.knownBad ∧ SchemaOk Old.planTy = false := by decide
+
+/-- what did hold before the repair: every plan without an empty `replace` / `new_path` survived -/
+theorem old_plan_roundtrip_partial (v : RVal) (hw : wellTyped Old.planTy v = true)
+    (hg : guardOn Old.knownBad Old.planTy v = true) : de Old.planTy (ser Old.planTy v) = .ok v :=
+  Serde.roundtrip_of_schemaOkExcept Old.knownBad Old.planTy v (by decide) hw hg
+
+example : wellTyped Old.planTy (sample Old.planTy) = true ∧ guardOn Old.knownBad Old.planTy (sample Old.planTy) = true := by
+  decide
+
+/-- Defect 1 (repaired by 7e5290d): the plan of a deletion — a hunk whose `replace` is empty — was written
+    without the key and could not be loaded: "missing field `replace`"
+    (`rename foo_bar "" -y` then `undo`; `plan foo_bar ""` then `apply`). -/
 theorem C17_witness_empty_replace :
-    (offending Gen.planTy).contains (b!"MatchHunk", b!"replace") = true →
-    (witnessFor b!"MatchHunk" b!"replace" Gen.planTy).map
-        (fun w => (wellTyped Gen.planTy w, de Gen.planTy (ser Gen.planTy w)))
+    (witnessFor b!"MatchHunk" b!"replace" Old.planTy).map
+        (fun w => (wellTyped Old.planTy w, de Old.planTy (ser Old.planTy w)))
       = some (true, .error (.missingField b!"replace")) := by decide
 
-/-- Known defect 2: a rename with an empty `new_path` (only produced by `search`, or through the library API)
-    cannot be loaded: "missing field `new_path`". -/
+/-- Defect 2 (repaired by 7e5290d): a rename with an empty `new_path` (what an empty replacement plans for
+    every matching name) could not be loaded: "missing field `new_path`". -/
 theorem C17_witness_empty_new_path :
-    (offending Gen.planTy).contains (b!"Rename", b!"new_path") = true →
-    (witnessFor b!"Rename" b!"new_path" Gen.planTy).map
-        (fun w => (wellTyped Gen.planTy w, de Gen.planTy (ser Gen.planTy w)))
+    (witnessFor b!"Rename" b!"new_path" Old.planTy).map
+        (fun w => (wellTyped Old.planTy w, de Old.planTy (ser Old.planTy w)))
       = some (true, .error (.missingField b!"new_path")) := by decide
+
+/-- the same two values survive under the current schema (the repair is what makes the difference) -/
+theorem repaired_witnesses_roundtrip :
+    (witnessFor b!"MatchHunk" b!"replace" Gen.planTy).map (fun w => decide (de Gen.planTy (ser Gen.planTy w) = .ok w)) = some true ∧
+    (witnessFor b!"Rename" b!"new_path" Gen.planTy).map (fun w => decide (de Gen.planTy (ser Gen.planTy w) = .ok w)) = some true := by
+  decide
 
 /-- The mechanism in isolation (fixed schema, independent of the generated one): `skip_serializing_if`
     without `default` loses the empty string; with `default` it is restored. -/
@@ -198,9 +264,8 @@ theorem apply_saved_eq_apply_direct {α} (apply : RVal → α) (t : Ty) (v : RVa
     (h : de t (ser t v) = .ok v) : okMap apply (de t (ser t v)) = (.ok (apply v) : Except DeErr α) := by
   rw [h]; rfl
 
-theorem apply_saved_plan_partial {α} (apply : RVal → α) (v : RVal) (hw : wellTyped Gen.planTy v = true)
-    (hg : guardOn Gen.knownBad Gen.planTy v = true) :
+theorem apply_saved_plan {α} (apply : RVal → α) (v : RVal) (hw : wellTyped Gen.planTy v = true) :
     okMap apply (de Gen.planTy (ser Gen.planTy v)) = (.ok (apply v) : Except DeErr α) :=
-  apply_saved_eq_apply_direct apply _ v (plan_roundtrip_partial v hw hg)
+  apply_saved_eq_apply_direct apply _ v (plan_roundtrip_all v hw)
 
 end C17
